@@ -455,24 +455,25 @@ def c02_stage(tier):
 FUZZ_PROPS = ["C01", "C02", "C03", "C04", "C05", "C06", "C07", "C08", "C09", "C10", "C12", "C13", "C14", "C20"]
 
 
-def fuzz_stage(prop, secs, jobs=16):
+def fuzz_stage(prop, secs, jobs=16, sanitizer="none"):
     """Coverage-guided workload: libFuzzer (harness/fuzz, target `omni`) chooses inputs under coverage
     feedback from the library and the reference parser; the property's ordinary monitor judges each one
     inside the fuzzing process, and every candidate it writes is re-judged here by the regular `checked`
     and `release` binaries before it counts. Crashes of the fuzzing process itself (the instrumented
     build needs more stack than the regular one) are only candidates too."""
     import resource, glob
-    cov = {"tool": "libFuzzer (cargo-fuzz, sanitizer none, value profile, fork mode)", "property": prop, "seconds": secs, "jobs": jobs}
+    cov = {"tool": f"libFuzzer (cargo-fuzz, sanitizer {sanitizer}, value profile, fork mode)", "property": prop, "seconds": secs, "jobs": jobs}
     viol, inc = [], []
     t0 = time.time()
-    rc, out = run(["cargo", "+nightly", "fuzz", "build", "-s", "none", "--target-dir", f"{BUILD}/fuzz", "omni"], timeout=1800)
-    binp = f"{BUILD}/fuzz/{TRIPLE}/release/omni"
+    tdir = f"{BUILD}/fuzz" if sanitizer == "none" else f"{BUILD}/fuzz-{sanitizer}"
+    rc, out = run(["cargo", "+nightly", "fuzz", "build", "-s", sanitizer, "--target-dir", tdir, "omni"], timeout=1800)
+    binp = f"{tdir}/{TRIPLE}/release/omni"
     if rc != 0 or not os.path.exists(binp):
         inc.append("fuzz target did not build: " + out[-500:].replace("\n", " | "))
         cov["status"] = "inconclusive"
         return cov, viol, inc
     cov["build_s"] = round(time.time() - t0, 1)
-    wd = f"{TMP}/fuzz-{prop}-{os.getpid()}"
+    wd = f"{TMP}/fuzz-{prop}-{sanitizer}-{os.getpid()}"
     shutil.rmtree(wd, ignore_errors=True)
     for d in ("corpus", "seeds", "out"):
         os.makedirs(f"{wd}/{d}")
@@ -484,6 +485,9 @@ def fuzz_stage(prop, secs, jobs=16):
         return cov, viol, inc
     cov["seed_inputs"] = len(os.listdir(f"{wd}/seeds"))
     env = dict(ENV, SCV_FUZZ_PROP=prop, SCV_FUZZ_OUT=f"{wd}/out")
+    if sanitizer == "address":
+        env["ASAN_OPTIONS"] = "detect_leaks=0:abort_on_error=1:symbolize=1:detect_stack_use_after_return=0"
+        env["ASAN_SYMBOLIZER_PATH"] = shutil.which("llvm-symbolizer-14") or shutil.which("llvm-symbolizer") or ""
     cmd = [binp, f"-fork={jobs}", f"-max_total_time={secs}", "-timeout=20", "-rss_limit_mb=4096", "-max_len=700", f"-dict={wd}/dict", "-use_value_profile=1",
            "-ignore_crashes=1", "-ignore_timeouts=1", "-ignore_ooms=1", f"-seed={SEED}", f"-artifact_prefix={wd}/out/", f"{wd}/corpus", f"{wd}/seeds"]
 
@@ -499,6 +503,35 @@ def fuzz_stage(prop, secs, jobs=16):
         last = prog[-1]
         cov.update({"fuzzer_executions": int(last[0]), "coverage_edges": int(last[1]), "coverage_features": int(last[2]), "corpus_size": int(last[3]),
                     "fuzzer_ooms": int(last[5]), "fuzzer_timeouts": int(last[6]), "fuzzer_crashes": int(last[7])})
+    if sanitizer != "none":
+        # the sanitizer is the monitor here: a report is a violation whether or not a result changed
+        found = [(m.group(0), m.end()) for m in re.finditer(r"ERROR: AddressSanitizer: [^\n]*(?:\n(?!==\d+==ERROR)[^\n]*){0,60}", out)]
+        cov["sanitizer_reports"] = len(found)
+        seen_sites = set()
+        for r, pos in found:
+            kind = re.search(r"AddressSanitizer: ([\w-]+)", r).group(1)
+            if kind in ("stack-overflow", "out-of-memory", "allocation-size-too-big"):
+                continue  # resource exhaustion of the instrumented build, judged natively by the regular binaries
+            site = re.sub(r":\d+$", "", in_repo_frame(r))
+            if site in seen_sites:
+                continue
+            seen_sites.add(site)
+            m = re.search(r"Test unit written to (\S+)", out[pos - len(r):pos + 6000])
+            arts0 = [m.group(1)] if m and os.path.exists(m.group(1)) else sorted(glob.glob(f"{wd}/out/crash-*"))
+            case = None
+            if arts0:
+                rcx, ox = run([SCV, "fuzz-decode", prop, arts0[0]])
+                try:
+                    case = json.loads(ox.splitlines()[0])["case"]
+                except Exception:
+                    pass
+            kept = None
+            if arts0:
+                os.makedirs(f"{ROOT}/replays", exist_ok=True)
+                kept = f"{ROOT}/replays/{prop}-asan-fuzz-input-{hashlib.sha1(open(arts0[0],'rb').read()).hexdigest()[:12]}"
+                shutil.copy(arts0[0], kept)
+            viol.append({"property": prop, "config": "fuzz-asan", "class": "asan-report", "sig": f"{prop}|asan|{kind}|{site}", "seed": SEED, "case": case or {},
+                         "detail": f"AddressSanitizer reported {kind} at {in_repo_frame(r)} while the coverage-guided stage ran; fuzzer input kept at {kept}; report: " + r[:2000]})
     tot = collections.Counter()
     for f in glob.glob(f"{wd}/out/stats-*.json"):
         try:
@@ -614,6 +647,10 @@ def main():
         if tier == "thorough" and prop in FUZZ_PROPS:
             c, v, i = fuzz_stage(prop, int(os.environ.get("SCV_FUZZ_SECS", "75")))
             extra_cov = dict(extra_cov, coverage_guided=c); viol += v; inc += i
+            if prop == "C01":
+                # the same workload under AddressSanitizer: memory errors that change no result
+                c, v, i = fuzz_stage(prop, int(os.environ.get("SCV_FUZZ_SECS", "75")), sanitizer="address")
+                extra_cov = dict(extra_cov, coverage_guided_asan=c); viol += v; inc += i
     except Exception as ex:  # a stage that cannot run is inconclusive, never a verdict
         inc.append(f"stage {stage} failed to run: {ex!r}")
     cov = dict(extra_cov)
